@@ -72,7 +72,10 @@ class Report:
 
     # -- output ----------------------------------------------------------------------------------------
     def write(self, n_unlisted, known_hit):
-        os.makedirs(common.EVID, exist_ok=True)
+        # evidence/<id>.json describes runs against /repo only; a run against a scratch checkout (VERIF_REPO, used for
+        # seeded changes) writes its report under .work instead
+        evdir = common.EVID if common.REPO == "/repo" else os.path.join(common.WORK, "evidence-scratch")
+        os.makedirs(evdir, exist_ok=True)
         cov = {
             "states": self.states,
             "transitions": self.transitions,
@@ -104,6 +107,6 @@ class Report:
             "wall_s": round(time.time() - self.t0, 2),
             "violations": n_unlisted,
         }
-        with open(os.path.join(common.EVID, self.pid + ".json"), "w") as f:
+        with open(os.path.join(evdir, self.pid + ".json"), "w") as f:
             json.dump(ev, f, indent=1, default=str)
             f.write("\n")
